@@ -974,6 +974,8 @@ class GuardInterp(Interp):
         self.owned_containers = {}
         self.threw = {}          # (where, id(stmt)) -> (fi, stmt): try-body statements that raised into a handler
         self.done = set()        # (where, id(stmt)) of statements that completed normally
+        self.loops = {}          # (where, id(for stmt)) -> True iff every execution iterated a concrete python sequence
+        #                          (constant tuple / list / range) and no test inside was resolved by exploration
         self.unk_base = Unk.created
         self._unk_marks = []     # Unk.created at the start of each statement of stmt_stack
 
@@ -1027,6 +1029,31 @@ class GuardInterp(Interp):
         self._record(s, t, n0)
         if not t:
             raise RepoRaise("AssertionError", s, self.where(s))
+
+    def x_For(self, s, env):
+        """As Interp.x_For; records whether the trip count and every test inside were decided by the descriptor (a walk over
+        a constant dispatch tuple), so that a raise behind the loop counts as evaluated when the loop returned early."""
+        from .interp import _Break, _Continue
+        it = self.eval(s.iter, env)
+        key = (getattr(self.call_stack[-1], "where", "?"), id(s))
+        concrete = isinstance(it, (list, tuple, range, dict, str, set, frozenset))
+        n0 = self.n_chosen
+        broke = False
+        try:
+            for v in self.iterate(it, s.iter):
+                self.assign(s.target, v, env)
+                try:
+                    self.exec_block(s.body, env)
+                except _Break:
+                    broke = True
+                    break
+                except _Continue:
+                    continue
+            if not broke:
+                self.exec_block(s.orelse, env)
+        finally:
+            ok = concrete and self.n_chosen == n0
+            self.loops[key] = self.loops.get(key, True) and ok
 
     def x_While(self, s, env):
         from .interp import _Break, _Continue
@@ -1102,6 +1129,7 @@ class Outcome:
         self.n_chosen = it.n_chosen
         self.threw = dict(it.threw)
         self.done = set(it.done)
+        self.loops = dict(it.loops)
 
     @property
     def raise_fi(self):
@@ -1132,6 +1160,11 @@ class Outcome:
     def completed(self, fi, stmt):
         """Did stmt run to normal completion (a statement of a try body that did NOT raise into its handlers)?"""
         return (fi.where, id(stmt)) in self.done and (fi.where, id(stmt)) not in self.threw
+
+    def loop_decided(self, fi, stmt):
+        """Did this run execute the `for` statement, every time over a concrete python sequence and without any test
+        inside being resolved by exploration (trip count and early exits are decided by the descriptor)?"""
+        return self.loops.get((fi.where, id(stmt)), False)
 
     def pruned_cfg(self, fi):
         """CFG of fi without the edges this run is known not to take."""
